@@ -120,7 +120,8 @@ func compare0(r *mon.Rec, s subject, rp replay, ref map[string]string, ops []op,
 	return true
 }
 
-var lastSubject = map[string]func() []op{}
+// otherSubject builds the operations of the subject (kind, idx) on a fresh value; set by TestCheck.
+var otherSubject func(kind string, idx int) []op
 
 func judge(r *mon.Rec, kind string, idx int, s subject, rng *rand.Rand) {
 	rp := replay{kind, idx}
@@ -199,8 +200,10 @@ func judge(r *mon.Rec, kind string, idx int, s subject, rng *rand.Rand) {
 	// other values are read and printed in between (a server logging one packet and then another): what THIS value's
 	// operations return does not depend on which other values the process has looked at.  The other value is the
 	// previous subject of the same family, preferably (two PXE packets, two relay messages).
-	if other := lastSubject[kind]; other != nil && idx%2 == 0 {
-		oo := other()
+	if other := otherSubject; other != nil && idx%2 == 0 {
+		// (a value that has NOT been looked at before in this process: state that only ever accumulates would already
+		// be part of the reference otherwise)
+		oo := other(kind, idx+1000003)
 		for i := range oo {
 			safe(oo[i].fn)
 		}
@@ -210,7 +213,6 @@ func judge(r *mon.Rec, kind string, idx int, s subject, rng *rand.Rand) {
 		}
 		r.Count("subjects_reread_after_another_value", 1)
 	}
-	lastSubject[kind] = s.mk
 	// exhaustive short sequences: for small operation sets, all sequences of <= 3 calls followed by a full snapshot
 	if n <= 12 {
 		seqs := 0
@@ -483,6 +485,7 @@ func TestCheck(t *testing.T) {
 		return
 	}
 	r.Watchdog(60 * time.Second)
+	otherSubject = func(kind string, idx int) []op { return subjectFor(r, kind, idx, typed).mk() }
 	n := r.Pick(12000, 300000)
 	if os.Getenv("VERIF_STAGE") == "race" {
 		// reader-writes detector: any race report names a write performed by a "read-only" method
